@@ -204,6 +204,17 @@ func (b *Binary) Tail(n int) string {
 	return strings.Join(ls, " / ")
 }
 
+// BindFailed reports that the command gave up because its metrics or web address was taken: the port is probed and released
+// before the command binds it, and another process can take it in between. Says nothing about gostatsd.
+func (b *Binary) BindFailed() bool {
+	for _, l := range b.Lines() {
+		if strings.Contains(l, "address already in use") {
+			return true
+		}
+	}
+	return false
+}
+
 // Stop kills the command and waits for its output to end.
 func (b *Binary) Stop() {
 	select {
